@@ -21,7 +21,7 @@ from fractions import Fraction
 
 from sa import AnalysisError
 from sa.pattern import pmatch, pfind
-from sa.astutil import dotted, src, stmt_text, params, find_stmts, calls_in, method_name, const, resolved
+from sa.astutil import dotted, src, stmt_text, params, find_stmts, calls_in, method_name, const, resolved, target_names
 from sa.algebra import Poly, Unsupported
 from rules.c04 import emitted_function
 
@@ -487,6 +487,57 @@ def check_contractions(model, rep):
                f'numpy.{name} combines `{p0}` and `{p1}` with broadcasting without first comparing their shapes: an axis of length one is silently broadcast, where NumPy ' +
                {'contracted': 'rejects the operands', 'flattened': 'flattens both operands and rejects unequal sizes', 'paired': 'requires equal lengths'}[how],
                statement='contracted-lengths-checked' if how == 'contracted' else 'operand-sizes-checked')
+
+
+def check_sequence_shapes(model, rep):
+    """R07.7 (sequence form): numpy.stack joins arrays of EQUAL shape along a new axis and rejects anything else; it is realised as a sum
+    of kronecker-inflated members, which would happily broadcast.  The implementation must compare the shapes of the members and raise
+    ValueError before they are combined, and must not pass them through broadcast_arrays."""
+    m, regs = registrations(model)
+    by = {fn.name: fn for fn, _ in regs}
+    fn = by.get('stack')
+    if fn is None:
+        raise AnalysisError('numpy.stack implementation not found')
+    rets = [r for r in ast.walk(fn) if isinstance(r, ast.Return)]
+    guards = [g for g in ast.walk(fn) if isinstance(g, ast.If) and any(isinstance(b, ast.Raise) and 'ValueError' in src(b) for b in g.body)
+              and any(isinstance(c, ast.Compare) and isinstance(c.ops[0], (ast.NotEq, ast.Eq)) and (src(c.left).endswith('.shape') or src(c.comparators[0]).endswith('.shape')) for c in ast.walk(g.test))
+              and rets and g.lineno < min(r.lineno for r in rets)]
+    bcast = [c for c in ast.walk(fn) if isinstance(c, ast.Call) and src(c.func).endswith('broadcast_arrays')]
+    ok = bool(guards) and not bcast
+    rep.ob('R07.7', 'function:__implementations__.stack', f'{m.relpath}:{fn.lineno}', ok, 'numpy.stack: the member shapes are compared and a mismatch raises ValueError before the members are combined' if ok else
+           'numpy.stack ' + ('broadcasts its members against each other' if bcast else 'does not compare the shapes of its members') + ': arrays of different (broadcastable) shapes are silently repeated, where NumPy raises '
+           '"all input arrays must have the same shape"', statement='stack-shapes-checked')
+
+
+ORDER_SENSITIVE_AXES = {   # NumPy functions whose result depends on WHICH of two axis arguments is which (so the pair may not be reordered)
+    'diagonal': ('axis1', 'axis2'),     # with an offset, diagonal(a, k, 0, 1) and diagonal(a, k, 1, 0) are the k-th and the (-k)-th diagonal
+    'trace': ('axis1', 'axis2'),
+    'moveaxis': ('source', 'destination'),
+}
+
+
+def check_axis_order(model, rep):
+    """R07.8 (order): the two axis arguments of numpy.diagonal/trace (and source/destination of moveaxis) are not interchangeable; an
+    implementation that sorts or min/max-es the pair computes another diagonal for offset != 0 when the caller passes axis1 > axis2."""
+    m, regs = registrations(model)
+    by = {fn.name: fn for fn, _ in regs}
+    for name, (a1, a2) in ORDER_SENSITIVE_AXES.items():
+        fn = by.get(name)
+        if fn is None:
+            continue
+        pos, kwonly, va, kw = params(fn)
+        if a1 not in pos + kwonly or a2 not in pos + kwonly:
+            continue
+        bad = None
+        for n in ast.walk(fn):
+            if isinstance(n, ast.Call) and src(n.func) in ('sorted', 'min', 'max', 'builtins.min', 'builtins.max', 'numpy.sort', 'numpy.minimum', 'numpy.maximum'):
+                names = {x.id for x in ast.walk(n) if isinstance(x, ast.Name)}
+                if {a1, a2} <= names:
+                    par = [s_ for s_ in ast.walk(fn) if isinstance(s_, (ast.Assign, ast.Return, ast.Expr)) and any(x is n for x in ast.walk(s_))]
+                    if any(isinstance(s_, ast.Assign) and ({a1, a2} & set(target_names(s_.targets[0])) or True) for s_ in par) and not any(isinstance(c, ast.Compare) and any(x is n for x in ast.walk(c)) for c in ast.walk(fn)):
+                        bad = n
+        rep.ob('R07.8', f'function:__implementations__.{name}', f'{m.relpath}:{(bad or fn).lineno}', bad is None, f'numpy.{name} keeps `{a1}` and `{a2}` in the order given' if bad is None else
+               f'numpy.{name} reorders its axis arguments with `{src(bad)[:60]}`: for a non-zero offset (or distinct roles) the result for {a1} > {a2} is the one NumPy gives for the swapped pair', statement='axis-order-kept')
 
 
 def _axes_taint(fn):
@@ -1087,6 +1138,11 @@ def run(model, rep, tier):
     check_hooks(model, rep)
     check_composites(model, rep)
     check_contractions(model, rep)
+    check_sequence_shapes(model, rep)
+    check_axis_order(model, rep)
+    rep.rule('R07.16', 'numpy.prod / numpy.all over an empty axis: the Zeros shortcut of Product answers 1 there (= R01.9)')
+    from rules.c01 import check_zeros_shortcuts
+    check_zeros_shortcuts(model, rep, rule='R07.16')
     check_axes(model, rep)
     check_wrapped_preconditions(model, rep)
     check_wrapped_kinds(model, rep)
